@@ -28,7 +28,7 @@ type Ret = BTreeMap<CtLocation, (AssetBlindingFactor, ValueBlindingFactor, Secre
 struct InSpec {
     asset: usize,
     sec: TxOutSecrets,
-    conf: bool,
+    kind: Kind,
     party: Option<usize>,
     utxo: TxOut,
 }
@@ -94,42 +94,99 @@ fn in_value(rng: &mut R) -> u64 {
     }
 }
 
-fn make_utxo(secp: &Secp256k1<All>, rng: &mut R, asset: AssetId, value: u64, conf: bool) -> (TxOut, TxOutSecrets) {
-    let (abf, vbf) = if conf {
-        (AssetBlindingFactor::from_slice(gen::tweak(rng).as_ref()).unwrap(), ValueBlindingFactor::from_slice(gen::tweak(rng).as_ref()).unwrap())
-    } else {
-        (AssetBlindingFactor::zero(), ValueBlindingFactor::zero())
+/// the (asset, amount) lattice of a spent UTXO
+#[derive(Clone, Copy, PartialEq, Eq, Debug)]
+enum Kind {
+    /// explicit asset, explicit amount: abf = vbf = 0, term 0
+    EE,
+    /// both blinded: abf != 0, vbf != 0
+    CC,
+    /// blinded asset, explicit amount: abf != 0, vbf = 0, term = value * abf
+    CE,
+    /// explicit asset, amount committed on the unblinded generator: abf = 0, vbf != 0, term = vbf
+    EC,
+}
+const KINDS: [Kind; 4] = [Kind::EE, Kind::CC, Kind::CE, Kind::EC];
+impl Kind {
+    fn name(self) -> &'static str {
+        match self { Kind::EE => "EE", Kind::CC => "CC", Kind::CE => "CE", Kind::EC => "EC" }
+    }
+    fn nonzero_term(self) -> bool {
+        self != Kind::EE
+    }
+}
+
+/// a UTXO of the given kind with REAL commitments (so that `verify_tx_amt_proofs` works) and its secrets
+fn make_utxo(secp: &Secp256k1<All>, rng: &mut R, asset: AssetId, value: u64, kind: Kind) -> (TxOut, TxOutSecrets) {
+    let rnd_abf = |rng: &mut R| AssetBlindingFactor::from_slice(gen::tweak(rng).as_ref()).unwrap();
+    let rnd_vbf = |rng: &mut R| ValueBlindingFactor::from_slice(gen::tweak(rng).as_ref()).unwrap();
+    let (abf, vbf) = match kind {
+        Kind::EE => (AssetBlindingFactor::zero(), ValueBlindingFactor::zero()),
+        Kind::CC => (rnd_abf(rng), rnd_vbf(rng)),
+        Kind::CE => (rnd_abf(rng), ValueBlindingFactor::zero()),
+        Kind::EC => (AssetBlindingFactor::zero(), rnd_vbf(rng)),
     };
     let sec = TxOutSecrets::new(asset, abf, value, vbf);
-    let txout = if conf {
-        let a = confidential::Asset::new_confidential(secp, asset, abf);
-        let v = confidential::Value::new_confidential(secp, value, a.commitment().unwrap(), vbf);
-        TxOut { asset: a, value: v, nonce: confidential::Nonce::Confidential(gen::pubkey(rng)), script_pubkey: p2wpkh(rng), witness: TxOutWitness::default() }
-    } else {
-        TxOut { asset: confidential::Asset::Explicit(asset), value: confidential::Value::Explicit(value), nonce: confidential::Nonce::Null, script_pubkey: p2wpkh(rng), witness: TxOutWitness::default() }
+    let a = match kind {
+        Kind::EE | Kind::EC => confidential::Asset::Explicit(asset),
+        Kind::CC | Kind::CE => confidential::Asset::new_confidential(secp, asset, abf),
     };
-    (txout, sec)
+    let v = match kind {
+        Kind::EE | Kind::CE => confidential::Value::Explicit(value),
+        // amount commitment value*gen + vbf*G on the (blinded or unblinded) asset generator
+        Kind::CC => confidential::Value::new_confidential(secp, value, a.commitment().unwrap(), vbf),
+        Kind::EC => confidential::Value::new_confidential(secp, value, elements::secp256k1_zkp::Generator::new_unblinded(secp, asset.into_tag()), vbf),
+    };
+    let nonce = if kind == Kind::EE { confidential::Nonce::Null } else { confidential::Nonce::Confidential(gen::pubkey(rng)) };
+    (TxOut { asset: a, value: v, nonce, script_pubkey: p2wpkh(rng), witness: TxOutWitness::default() }, sec)
 }
 
 /// parties partition the inputs; every party gets >= 1 blinded output of an asset it holds
 fn scenario(secp: &Secp256k1<All>, rng: &mut R, max_in: usize, with_issuance: bool) -> Scenario {
+    let rot = rng.gen_range(0..4usize);
+    scenario_with(secp, rng, max_in, with_issuance, rot, None)
+}
+
+/// `rot`: input i is of kind KINDS[(rot + i) % 4] (round robin over the lattice; 1 in 5 random);
+/// `forced`: Some((parties, kinds, unowned)) fixes the number of parties and the kind of every input
+/// (input i belongs to party i % parties, except input `unowned`, which nobody supplies)
+fn scenario_with(secp: &Secp256k1<All>, rng: &mut R, max_in: usize, with_issuance: bool, rot: usize, forced: Option<(usize, Vec<Kind>, Option<usize>)>) -> Scenario {
     let nassets = rng.gen_range(1..=3usize);
     let assets: Vec<AssetId> = (0..nassets).map(|_| gen::asset_id(rng)).collect();
-    let k = if rng.gen_range(0..3) == 0 { rng.gen_range(1..=max_in) } else { rng.gen_range(3.min(max_in)..=max_in) };
-    let nparties = if rng.gen_range(0..3) == 0 { k.min(4) } else { rng.gen_range(1..=k.min(4)) };
+    let mut k = if rng.gen_range(0..3) == 0 { rng.gen_range(1..=max_in) } else { rng.gen_range(3.min(max_in)..=max_in) };
+    let mut nparties = if rng.gen_range(0..3) == 0 { k.min(4) } else { rng.gen_range(1..=k.min(4)) };
+    if let Some((np, kinds, _)) = &forced {
+        k = kinds.len();
+        nparties = *np;
+    }
     // surjective assignment of inputs to parties
     let mut party_of: Vec<usize> = (0..k).map(|i| if i < nparties { i } else { rng.gen_range(0..nparties) }).collect();
     for i in (1..k).rev() {
         let j = rng.gen_range(0..=i);
         party_of.swap(i, j);
     }
+    if forced.is_some() {
+        party_of = (0..k).map(|i| i % nparties).collect();
+    }
     let mut ins = Vec::new();
     for i in 0..k {
         let a = rng.gen_range(0..nassets);
-        let conf = rng.gen_range(0..4) != 0;
+        let kind = match &forced {
+            Some((_, kinds, _)) => kinds[i],
+            None => if rng.gen_range(0..5) == 0 { KINDS[rng.gen_range(0..4)] } else { KINDS[(rot + i) % 4] },
+        };
         let val = in_value(rng);
-        let (utxo, sec) = make_utxo(secp, rng, assets[a], val, conf);
-        ins.push(InSpec { asset: a, sec, conf, party: Some(party_of[i]), utxo });
+        let (utxo, sec) = make_utxo(secp, rng, assets[a], val, kind);
+        ins.push(InSpec { asset: a, sec, kind, party: Some(party_of[i]), utxo });
+    }
+    // an explicit input owned by nobody: its term is 0, nobody has to supply it (its party keeps another input)
+    if let Some((_, _, Some(u))) = &forced {
+        ins[*u].party = None;
+    }
+    if forced.is_none() && rng.gen_range(0..5) == 0 {
+        if let Some(i) = (0..k).find(|&i| ins[i].kind == Kind::EE && ins.iter().filter(|x| x.party == ins[i].party).count() >= 2) {
+            ins[i].party = None;
+        }
     }
     // slots per asset
     let mut slots: Vec<Vec<Option<usize>>> = vec![vec![]; nassets]; // Some(party) = blinded by party, None = explicit
@@ -598,8 +655,18 @@ fn one_scenario(out: &mut Out, secp: &Secp256k1<All>, rng: &mut R, sc: &Scenario
     out.count(&format!("scenario.assets{}", sc.assets.len()));
     out.count(&format!("scenario.blinded_outs{}", sc.outs.iter().filter(|o| o.owner.is_some()).count().min(7)));
     out.count(&format!("scenario.explicit_outs{}", sc.outs.iter().filter(|o| o.owner.is_none()).count().min(4)));
-    out.count_n("scenario.conf_inputs", sc.ins.iter().filter(|i| i.conf).count() as u64);
-    out.count_n("scenario.expl_inputs", sc.ins.iter().filter(|i| !i.conf).count() as u64);
+    for i in &sc.ins {
+        out.count(&format!("scenario.inputs_kind.{}", i.kind.name()));
+        if i.party.is_none() {
+            out.count("scenario.input_owned_by_nobody");
+        }
+    }
+    for p in 0..m {
+        let mine: Vec<&InSpec> = sc.ins.iter().filter(|i| i.party == Some(p)).collect();
+        if mine.iter().all(|i| !i.kind.nonzero_term()) {
+            out.count("scenario.party_with_only_zero_term_inputs");
+        }
+    }
     // the surjection domain: one entry per input (Known iff its secrets were supplied) followed by
     // the input's issuance pseudo-inputs
     for p in 0..m {
@@ -645,6 +712,13 @@ fn one_scenario(out: &mut Out, secp: &Secp256k1<All>, rng: &mut R, sc: &Scenario
         let last_p = match o.last() { Some(Who::Last(p)) => *p, _ => 0 };
         let multi = sc.outs.iter().filter(|x| x.owner == Some(last_p)).count() > 1;
         out.count(if multi { "flow.last_multi_output" } else { "flow.last_single_output" });
+        // lattice coverage: kind of every owned input x role of its owner in this flow
+        for i in &sc.ins {
+            if let Some(p) = i.party {
+                let role = if m == 1 { "single" } else if p == last_p { "last" } else { "nonlast" };
+                out.count(&format!("lattice.{}.{}", i.kind.name(), role));
+            }
+        }
         let fr = run_flow(out, secp, sc, o, true);
         flows += 1;
         check_honest(out, secp, sc, &fr, &format!("order {:?}", o));
@@ -676,7 +750,7 @@ fn one_scenario(out: &mut Out, secp: &Secp256k1<All>, rng: &mut R, sc: &Scenario
 fn negative_controls(out: &mut Out, secp: &Secp256k1<All>, rng: &mut R, sc: &Scenario) -> usize {
     let m = sc.nparties;
     let mut flows = 0;
-    let any_conf = |p: usize| sc.ins.iter().any(|i| i.party == Some(p) && i.conf);
+    let any_conf = |p: usize| sc.ins.iter().any(|i| i.party == Some(p) && i.kind.nonzero_term());
     if m >= 2 {
         // wrong order: the last blinder runs first
         let last = rng.gen_range(0..m);
@@ -912,7 +986,7 @@ fn scalar_ops(out: &mut Out, secp: &Secp256k1<All>, rng: &mut R, n: usize) {
 /// scalars as map keys, so the next decode fails (the real code's reaction to coinciding scalars)
 fn twin_parties(out: &mut Out, secp: &Secp256k1<All>, rng: &mut R) {
     let asset = gen::asset_id(rng);
-    let (u0, s0) = make_utxo(secp, rng, asset, 5000, true);
+    let (u0, s0) = make_utxo(secp, rng, asset, 5000, Kind::CC);
     // second input with the same secrets
     let u1 = u0.clone();
     let s1 = s0;
@@ -953,7 +1027,7 @@ fn twin_parties(out: &mut Out, secp: &Secp256k1<All>, rng: &mut R) {
 fn zero_amount_last(out: &mut Out, secp: &Secp256k1<All>, rng: &mut R) {
     for with_scalar in [false, true] {
         let asset = gen::asset_id(rng);
-        let (u0, s0) = make_utxo(secp, rng, asset, 1000, false);
+        let (u0, s0) = make_utxo(secp, rng, asset, 1000, Kind::EE);
         let mut pset = Pset::new_v2();
         let mut inp = pset::Input::from_prevout(OutPoint::new(Txid::from_byte_array(gen::arr32(rng)), 0));
         inp.witness_utxo = Some(u0);
@@ -978,6 +1052,31 @@ fn zero_amount_last(out: &mut Out, secp: &Secp256k1<All>, rng: &mut R) {
     }
 }
 
+/// every UTXO kind of the (asset, amount) lattice as the owned input of a single party, of the last
+/// party and of a non-last party (all orders), deterministically at the start of every run.
+/// (Seeded change C09-w2m1: dropping inputs with vbf = 0 from `inp_secrets` loses the term
+/// value*abf of a CE input: wrong published scalar / last vbf, BalanceCheckFailed.)
+fn lattice_scenarios(out: &mut Out, secp: &Secp256k1<All>, rng: &mut R) -> usize {
+    let mut flows = 0;
+    for (j, kind) in KINDS.iter().enumerate() {
+        // one party, one input
+        let sc = scenario_with(secp, rng, 1, false, 0, Some((1, vec![*kind], None)));
+        flows += one_scenario(out, secp, rng, &sc, 6);
+        // two parties: party 0 owns this kind, party 1 the next one; both orders
+        let other = KINDS[(j + 1) % 4];
+        let sc = scenario_with(secp, rng, 2, false, 0, Some((2, vec![*kind, other], None)));
+        flows += one_scenario(out, secp, rng, &sc, 6);
+        if j % 2 == 0 {
+            flows += negative_controls(out, secp, rng, &sc);
+        }
+    }
+    // a party whose inputs are all EE next to parties with mixed kinds (3 parties, 6 inputs), and an
+    // explicit input that nobody supplies (input 3; its party 0 keeps input 0)
+    let sc = scenario_with(secp, rng, 6, false, 0, Some((3, vec![Kind::EE, Kind::CE, Kind::EC, Kind::EE, Kind::CC, Kind::CE], Some(3))));
+    flows += one_scenario(out, secp, rng, &sc, 6);
+    flows
+}
+
 pub fn run(rng: &mut R, out: &mut Out) {
     let secp = Secp256k1::new();
     let thorough = out.tier_thorough;
@@ -986,8 +1085,9 @@ pub fn run(rng: &mut R, out: &mut Out) {
     zero_amount_last(out, &secp, rng);
     scalar_ops(out, &secp, rng, if thorough { 1500 } else { 150 });
     error_cases(out, &secp, rng, if thorough { 280 } else { 28 });
-    let budget = if thorough { 1500 } else { 60 };
-    let mut flows = 0;
+    let budget = if thorough { 1500 } else { 95 };
+    let mut flows = lattice_scenarios(out, &secp, rng);
+    out.count_n("flows.lattice", flows as u64);
     let mut n = 0;
     while flows < budget {
         let max_in = if n % 4 == 0 { 6 } else { 5 };
